@@ -8,10 +8,20 @@ of K, is a new object on every call, is not an object of K, and after the caller
 (and a call on the negated formula) again returns the model's answer while the caller's set keeps what the
 caller put into it.  States and labels are numbered through a bijection for the model (states are nat there).
 EXACT answers are compared only where no known finding applies (formula atoms are non-reserved identifiers);
-for exotic atom names only the weaker contract (set of states, no internal error, fresh object) is asserted."""
+for exotic atom names only the weaker contract (set of states, no internal error, fresh object) is asserted.
+Further streams ("for every total Kripke structure and every formula" has no size bound and no hashing assumption):
+  * long structures WITH F (LONG_SHAPES: corridor into a 2-clique, ring with self loops, two cliques joined by a corridor; 1100-2400
+    states named by ints / strings / tuples / negative ints): closed-form answers that hold under the plain, the textbook-fair and the
+    coded semantics alike (no SCC of size 1, every SCC member has a self loop, F chosen so that either every path is fair or the
+    queried fact has a fair witness: outside KF-C15-a/b), validated against the extracted model on the same shapes with 6 / 9 states;
+  * degenerate structures: Kripke() / Kripke(S=[],..) and one-state structures through all three entry points, text and object,
+    F in {None, [], [set()], [{not a state}], sets};
+  * states that are plain objects with identity __eq__ (Site: address hash, SiteH: int hash): elements of a result must BE K's objects;
+  * one or / and node with 520-1300 operands (object and text) on small typed structures (model) and on a long ring (closed form);
+  * build-ask-drop loops: many short-lived structures of equal size asked the same one or two formulas (model answer per round)."""
 from common import *
 from mccheck import *
-from props_c07 import ftext, snap_kripke, internal_ids, shared_parser, in_logic, n_temporal, MODEL_F, guarded, TIMEOUTS
+from props_c07 import ftext, snap_kripke, internal_ids, shared_parser, in_logic, n_temporal, MODEL_F, guarded, TIMEOUTS, Site, SiteH
 LEVEL = 'proof'
 
 LOGICS = ('CTL', 'LTL', 'CTLS')
@@ -41,6 +51,8 @@ def is_good_atom(a):
 def enc(v):
     if isinstance(v, bool):
         raise ValueError('bool values are not used')
+    if isinstance(v, Site):
+        return {'oh' if isinstance(v, SiteH) else 'o': v.i}
     if isinstance(v, (int, float)):
         return v
     if isinstance(v, str):
@@ -58,6 +70,10 @@ def dec(j):
             return j['s']
         if 't' in j:
             return tuple(dec(x) for x in j['t'])
+        if 'o' in j:
+            return Site(j['o'])          # a NEW plain object (identity __eq__ / __hash__) on every decoding: build() decodes once
+        if 'oh' in j:
+            return SiteH(j['oh'])        # identity __eq__, hashed like the int
         return frozenset(dec(x) for x in j['fs'])
     return j
 
@@ -207,12 +223,17 @@ def fresh_like(rng, f):
     return out
 
 
-def gen_case(rng, family=None, logic=None, cls=None, deep=None, mode=None, Fkind=None, extra=None, formula=None, p_text=0.15):
+def gen_case(rng, family=None, logic=None, cls=None, deep=None, mode=None, Fkind=None, extra=None, formula=None, p_text=0.15,
+             n=None, ctor=None):
     family = family or rng.choice(['str', 'tuple', 'negint', 'frozenset', 'mixed', 'mixed', 'mixed', 'int'])
     logic = logic or rng.choice(LOGICS)
-    n = rng.randint(1, 5)
-    kd = rand_kripke(rng, n)
-    states = rng.sample(FAMILIES[family], n)
+    n = rng.randint(1, 5) if n is None else n
+    kd = rand_kripke(rng, n) if n else {'S0': [], 'R': [], 'L': {}}          # n = 0: the EMPTY structure (vacuously total)
+    if family in ('object', 'objecth'):
+        # plain objects compared by identity: an element of a result must BE one of K's own state objects
+        states = [(Site if family == 'object' else SiteH)(k) for k in rng.sample(range(12), n)]
+    else:
+        states = rng.sample(FAMILIES[family], n)
     if cls is None:
         r = rng.random()
         cls = 'exact' if r < 0.8 else 'weak' if r < 0.97 else 'ool'
@@ -259,7 +280,9 @@ def gen_case(rng, family=None, logic=None, cls=None, deep=None, mode=None, Fkind
     if Fkind is None:
         r = rng.random()
         Fkind = 'none' if r < 0.6 else 'empty' if r < 0.7 else 'sets'
-    F = None if Fkind == 'none' else [] if Fkind == 'empty' else \
+    # an index >= n in a fairness set stands for an object that is NOT a state of K (harmless: only intersections with SCCs count)
+    F = None if Fkind == 'none' else [] if Fkind == 'empty' else [[]] if Fkind == 'emptyset' else \
+        [[n + 1]] + [sorted(i for i in range(n) if rng.random() < 0.5) for _ in range(rng.randint(0, 1))] if Fkind == 'foreign' else \
         [sorted(i for i in range(n) if rng.random() < 0.5) for _ in range(rng.randint(1, 3))]
     if mode is None:
         mode = 'text' if (cls == 'exact' and rng.random() < p_text) else 'obj'
@@ -267,13 +290,21 @@ def gen_case(rng, family=None, logic=None, cls=None, deep=None, mode=None, Fkind
     return {'family': family, 'states': [enc(s) for s in states], 'S0': kd['S0'], 'R': [list(e) for e in kd['R']],
             'labels': labels, 'logic': logic, 'formula': f, 'mode': mode, 'F': F, 'cls': cls, 'mut': mut,
             'negated_followup': logic != 'LTL' and cls != 'ool' and rng.random() < 0.5,
-            'relabel': rng.random() < 0.3}
+            'relabel': rng.random() < 0.3, 'ctor': ctor or 'full'}
 
 
 def build(case):
     states = [dec(s) for s in case['states']]
-    K = mk_py_kripke(list(states), [states[i] for i in case['S0']], [(states[a], states[b]) for a, b in case['R']],
-                     {states[int(i)]: [dec(x) for x in ls] for i, ls in case['labels'].items()})
+    ctor = case.get('ctor', 'full')
+    Ld = {states[int(i)]: [dec(x) for x in ls] for i, ls in case['labels'].items()}
+    if ctor == 'noargs' and not states:
+        from pyModelChecking.kripke import Kripke
+        K = Kripke()                                  # no state, no transition: every state (there is none) has a successor
+    elif ctor == 'R-only':
+        from pyModelChecking.kripke import Kripke     # states given by the transitions only (a total structure has no isolated state)
+        K = Kripke(R=[(states[a], states[b]) for a, b in case['R']], L=Ld)
+    else:
+        K = mk_py_kripke(list(states), [states[i] for i in case['S0']], [(states[a], states[b]) for a, b in case['R']], Ld)
     if case.get('relabel'):
         # the labelling is (re)installed through the public replace_labelling_function: equal label sets become ONE shared set
         # object, and the caller's dict also carries entries for objects that are NOT states (a design-wide labelling dict)
@@ -334,14 +365,20 @@ def run_case(case):
         # FIRST-yielded node of each SCC, so its answer depends on the iteration order of the clone's successor
         # sets, which for non-int states (hash collisions, insertion history) may differ from the original's.
         # The faithful model is therefore given the presentation of a clone (clone() is deterministic).
-        ksc = ksx(K.clone(), num)
-        order_differs = ksc != ks
-        ks = ksc
+        try:
+            ksc = ksx(K.clone(), num)
+            order_differs = ksc != ks
+            ks = ksc
+        except KeyError:
+            pass               # the clone holds objects that are not K's states (identity-compared states): the contract below reports it
     n = len(states)
-    Fm = None if case['F'] is None else [sorted(num[states[i]] for i in P) for P in case['F']]
+
+    def fst(i):
+        return states[i] if i < n else ('#not-a-state', i)
+    Fm = None if case['F'] is None else [sorted(num[states[i]] if i < n else 1000 + i for i in P) for P in case['F']]
 
     def mkF():
-        return None if case['F'] is None else [set(states[i] for i in P) for P in case['F']]
+        return None if case['F'] is None else [set(fst(i) for i in P) for P in case['F']]
     if case['mode'] == 'text':
         arg = ftext(f)
         back = call(lambda: tree_of(shared_parser(logic)(arg)))
@@ -473,6 +510,43 @@ def depth_probe(R):
 
 
 # ----------------------------------------------------------------------------------------
+def extra_cases(rng, thorough):
+    """degenerate structures, identity-compared states, very wide connectives (all through the main pipeline: contract, caller
+    mutation, repeated call, model)"""
+    cs = []
+    # -- no state / one state: every entry point, text and object, every form of F
+    fixed = {'CTL': ['A G p', 'E X p', 'not E (q U p)', 'true', 'p'], 'LTL': ['A F G p', 'A (p U q)', 'A true', 'A not p'],
+             'CTLS': ['A F G p', 'E X A F p', 'E (G F p and X q)', 'not p', 'A G (p or E X q)']}
+    for n in (0, 1):
+        for logic in LOGICS:
+            for Fkind in ('none', 'empty', 'emptyset', 'foreign', 'sets'):
+                fs = [tree_of(shared_parser(logic)(t)) for t in (fixed[logic] if thorough else rng.sample(fixed[logic], 2))]
+                fs += [None] * (4 if thorough else 1)
+                for f in fs:
+                    ctor = rng.choice(['noargs', 'noargs', 'full']) if n == 0 else rng.choice(['full', 'R-only'])
+                    fam = rng.choice(['int', 'str', 'tuple', 'mixed', 'object', 'objecth', 'frozenset'])
+                    c = gen_case(rng, family=fam, logic=logic, cls='exact', Fkind=Fkind, formula=f, n=n, ctor=ctor,
+                                 mode=rng.choice(['obj', 'text']), extra=rng.choice(['none', 'fair', 'fresh', 'all']))
+                    if ctor != 'full':
+                        c['S0'] = []          # (these constructor forms have no initial states)
+                        c['relabel'] = c['relabel'] and ctor != 'noargs'
+                    cs.append(c)
+    # -- plain-object states (identity __eq__): results must consist of K's OWN state objects
+    for i in range(600 if thorough else 72):
+        cs.append(gen_case(rng, family=rng.choice(['object', 'objecth']), logic=LOGICS[i % 3], cls='exact' if i % 10 else 'weak',
+                           Fkind=rng.choice(['none', 'empty', 'sets', 'sets']), ctor=rng.choice(['full', 'full', 'R-only'])))
+        if cs[-1]['ctor'] == 'R-only':
+            cs[-1]['S0'] = []
+    # -- one connective with hundreds of operands, as object and as text
+    for i in range(36 if thorough else 9):
+        logic = LOGICS[i % 3]
+        width = rng.randint(1050, 1300) if (i // 3) % 2 == 0 else rng.randint(600, 900)
+        f = wide_formula(rng, logic, width, ['p', 'q'], place=['late', 'early', 'late', 'late', 'early', 'any'][(i // 3) % 6])
+        cs.append(gen_case(rng, logic=logic, cls='exact', formula=f, mode='text' if i % 6 >= 3 else 'obj',
+                           Fkind='none' if i % 4 else rng.choice(['empty', 'sets']), extra=rng.choice(['none', 'fair'])))
+    return cs
+
+
 def corpus(rng):
     cs = []
     for fam in ('str', 'tuple', 'negint', 'frozenset', 'mixed', 'int'):
@@ -521,6 +595,426 @@ def long_corridors(R):
     R.cov['long_corridors'] = {'sizes': [1500, 2600, 1200], 'differences': n_bad}
 
 
+# ---------- long structures WITH fairness constraints ----------
+NAMING = {'int': lambda i: i, 'str': lambda i: 's%d' % i, 'tuple': lambda i: ('c', i), 'negint': lambda i: -i - 1}
+
+
+def _all(n):
+    return set(range(n))
+
+
+# shape -> (edges(n), labels(n), core(n): the states every fairness set must contain for EVERY path to be fair,
+#           anchors(n): groups of states; a fairness set that meets every group keeps every state fair and the 'robust' answers valid,
+#           queries: (logic, text, expected(n) as a set of indices, robust, cost class 0 / 1 / 2: 1 and 2 go through the LTL tableau))
+# robust = the closed form is the answer under the plain semantics, under the textbook fair semantics and under the coded reduction
+#          for every F whose sets meet all anchor groups (universal facts about all paths / existential facts with a fair witness);
+# not robust = valid only when every path is fair (every fairness set contains the core), where all three semantics coincide.
+# In every shape each non-trivial SCC has >= 2 states that all carry a self loop, so KF-C15-a does not apply; fairness sets are
+# chosen so that KF-C15-b cannot show (see robust).
+LONG_SHAPES = {
+    # 0 -> 1 -> ... -> n-3 -> {n-2 <-> n-1, both with self loops}; q on the corridor, c on the clique, p at n-1
+    'corridor+clique': dict(
+        edges=lambda n: [(i, i + 1) for i in range(n - 1)] + [(n - 1, n - 1), (n - 1, n - 2), (n - 2, n - 2)],
+        labels=lambda n: dict([(i, ['q']) for i in range(n - 2)] + [(n - 2, ['c']), (n - 1, ['p', 'c'])]),
+        core=lambda n: [n - 2, n - 1], anchors=lambda n: [[n - 2, n - 1]],
+        queries=[('CTL', 'E F p', _all, True, 0), ('CTL', 'A F p', lambda n: {n - 1}, False, 0),
+                 ('CTL', 'A F c', _all, True, 0), ('CTL', 'A (q U c)', _all, True, 0),
+                 ('CTL', 'E G q', lambda n: set(), True, 0), ('CTL', 'E X p', lambda n: {n - 2, n - 1}, True, 0),
+                 ('CTL', 'A X c', lambda n: {n - 3, n - 2, n - 1}, True, 0), ('CTL', 'E G c', lambda n: {n - 2, n - 1}, True, 0),
+                 ('CTL', 'not E (q U p)', lambda n: _all(n) - {n - 1}, True, 0), ('CTL', 'A G (q or c)', _all, True, 0),
+                 ('LTL', 'A (q U c)', _all, True, 0), ('LTL', 'A X c', lambda n: {n - 3, n - 2, n - 1}, True, 0),
+                 ('LTL', 'A F G c', _all, True, 2), ('LTL', 'A G F p', lambda n: set(), False, 2),
+                 ('CTLS', 'A G (q or c)', _all, True, 0), ('CTLS', 'E X p', lambda n: {n - 2, n - 1}, True, 0),
+                 ('CTLS', 'A F G c', _all, True, 1), ('CTLS', 'E F G p', _all, True, 1),
+                 ('CTLS', 'E (F p and X q)', lambda n: set(range(n - 3)), True, 1),
+                 ('CTLS', 'A (F G c and E X c)', lambda n: {n - 3, n - 2, n - 1}, True, 2)]),
+    # a ring i -> i+1 (mod n) in which every state also has a self loop; p at 0, q elsewhere
+    'ring+loops': dict(
+        edges=lambda n: [(i, (i + 1) % n) for i in range(n)] + [(i, i) for i in range(n)],
+        labels=lambda n: dict([(0, ['p'])] + [(i, ['q']) for i in range(1, n)]),
+        core=lambda n: list(range(n)), anchors=lambda n: [list(range(n))],
+        queries=[('CTL', 'E F p', _all, True, 0), ('CTL', 'A F p', lambda n: {0}, False, 0),
+                 ('CTL', 'A X q', lambda n: _all(n) - {0, n - 1}, True, 0), ('CTL', 'E X p', lambda n: {0, n - 1}, True, 0),
+                 ('CTL', 'E G q', lambda n: _all(n) - {0}, False, 0), ('CTL', 'A G (E F p)', _all, True, 0),
+                 ('CTL', 'E (q U p)', _all, True, 0), ('CTL', 'A G q', lambda n: set(), True, 0),
+                 ('LTL', 'A X q', lambda n: _all(n) - {0, n - 1}, True, 0), ('LTL', 'A F p', lambda n: {0}, False, 0),
+                 ('CTLS', 'E F p', _all, True, 0), ('CTLS', 'A X q', lambda n: _all(n) - {0, n - 1}, True, 0),
+                 ('CTLS', 'E G F p', _all, True, 2), ('CTLS', 'E (X p and F q)', lambda n: {0, n - 1}, True, 1)]),
+    # {0 <-> 1, self loops} -> 2 -> ... -> n-3 -> {n-2 <-> n-1, self loops}; a on the first clique, q on the corridor, c on the last, p at n-1
+    'two cliques': dict(
+        edges=lambda n: [(0, 0), (0, 1), (1, 0), (1, 1)] + [(i, i + 1) for i in range(1, n - 1)] + [(n - 2, n - 2), (n - 1, n - 1), (n - 1, n - 2)],
+        labels=lambda n: dict([(0, ['a']), (1, ['a'])] + [(i, ['q']) for i in range(2, n - 2)] + [(n - 2, ['c']), (n - 1, ['c', 'p'])]),
+        core=lambda n: [0, 1, n - 2, n - 1], anchors=lambda n: [[0, 1], [n - 2, n - 1]],
+        queries=[('CTL', 'E F p', _all, True, 0), ('CTL', 'E G a', lambda n: {0, 1}, True, 0),
+                 ('CTL', 'A F c', lambda n: set(range(2, n)), False, 0), ('CTL', 'E (a U q)', lambda n: set(range(n - 2)), True, 0),
+                 ('CTL', 'A X (q or c)', lambda n: set(range(2, n)), True, 0), ('CTL', 'E X a', lambda n: {0, 1}, True, 0),
+                 ('LTL', 'A (q U c)', lambda n: set(range(2, n)), True, 0), ('LTL', 'A G (a or q or c)', _all, True, 0),
+                 ('CTLS', 'E G a', lambda n: {0, 1}, True, 0), ('CTLS', 'A X (q or c)', lambda n: set(range(2, n)), True, 0),
+                 ('CTLS', 'E F G p', _all, True, 1), ('CTLS', 'A F G (a or c)', _all, True, 2)]),
+}
+
+
+def long_F(rng, shape, n, kind):
+    """fairness constraints (lists of state indices) of one of the two kinds (see LONG_SHAPES)"""
+    sh = LONG_SHAPES[shape]
+    if kind == 'allfair':
+        core = sh['core'](n)
+        return [sorted(set(core) | set(rng.sample(range(n), rng.choice([0, 1, 5])))) for _ in range(rng.choice([0, 1, 1, 2, 3]))]
+    out = []
+    for _ in range(rng.randint(1, 3)):
+        P = set(rng.sample(range(n), rng.choice([0, 0, 2])))
+        for grp in sh['anchors'](n):
+            P |= set(rng.sample(grp, rng.randint(1, min(2, len(grp)))))
+        out.append(sorted(P))
+    return out
+
+
+def long_fair_query(shape, n, naming, F, logic, text, mode, K=None):
+    """-> (ok / complaint, K): one query on a long structure; the answer is mapped back to indices"""
+    from pyModelChecking.kripke import Kripke
+    sh, nm = LONG_SHAPES[shape], NAMING[naming]
+    if K is None:
+        K = Kripke(R=[(nm(a), nm(b)) for a, b in sh['edges'](n)], L={nm(i): set(ls) for i, ls in sh['labels'](n).items()})
+    M = lang_module(logic)
+    want = [w for lg, t, w, _, _ in sh['queries'] if (lg, t) == (logic, text)][0](n)
+    arg = text if mode == 'text' else to_py_iter(tree_of(shared_parser(logic)(text)), M)
+    Fv = [set(nm(i) for i in P) for P in F]
+    if mode == 'text+tupleF':
+        arg, Fv = text, tuple(frozenset(P) for P in Fv)
+    r = call(lambda: M.modelcheck(K, arg, F=Fv))
+    if r[0] != 'ok':
+        return 'raised %s' % r[1], K
+    v = r[1]
+    if type(v) is not set:
+        return 'returned a %s, not a set' % type(v).__name__, K
+    index = {nm(i): i for i in range(n)}
+    if not all(x in index for x in v):
+        return 'returned non-states, e.g. %r' % [x for x in v if x not in index][:3], K
+    got = set(index[x] for x in v)
+    if got != want:
+        d = sorted(got ^ want)
+        return 'returned %d states, the closed form has %d (differs at indices %s%s)' % (len(got), len(want), d[:6], '...' if len(d) > 6 else ''), K
+    return None, K
+
+
+def long_fair(R):
+    """long structures (a thousand states and more) queried WITH fairness constraints: see LONG_SHAPES.  The closed forms are first
+    validated against the extracted model (faithful fairness model) on the same shape with 6-9 states and the same kind of F."""
+    rng = random.Random(R.seed + 1919)
+    n_bad, n_q = 0, 0
+    # -- the closed forms, against the model and the library, at small size
+    small, cmds = [], []
+    for shape, sh in LONG_SHAPES.items():
+        for n in (6, 9):
+            for kind in ('allfair', 'robust'):
+                F = long_F(rng, shape, n, kind)
+                K = kd_py({'S': list(range(n)), 'S0': [], 'R': sh['edges'](n), 'L': sh['labels'](n)})
+                kc = K.clone()
+                ks = ksx(kc, {i: i for i in range(n)}) if set(kc.states()) == set(range(n)) else ksx(K, {i: i for i in range(n)})
+                for logic, text, want, robust, heavy in sh['queries']:
+                    if kind == 'robust' and not robust:
+                        continue
+                    f = tree_of(shared_parser(logic)(text))
+                    small.append((shape, n, kind, F, logic, text, sorted(want(n))))
+                    cmds.append(mcmd(logic, ks, f, F))
+    for (shape, n, kind, F, logic, text, want), o in zip(small, model_batch(cmds)):
+        e = exp_of(o)
+        if e != ['ok', want]:
+            raise RuntimeError('closed form of %s on %s(%d), F=%s (%s): table says %s, the model %s' % (text, shape, n, F, kind, want, e))
+        if n != 9 or [q[4] for q in LONG_SHAPES[shape]['queries'] if (q[0], q[1]) == (logic, text)][0]:
+            continue
+        R.evaluations += 1
+        bad, _ = long_fair_query(shape, n, 'int', F, logic, text, 'obj')
+        if bad:
+            n_bad += 1
+            R.violation('C19: on the %s structure of %d states %s.modelcheck(K, %r, F=%s) %s' % (shape, n, logic, text, F, bad),
+                        {'stream': 'long fair', 'shape': shape, 'n_states': n, 'naming': 'int', 'F': F, 'F_kind': kind, 'logic': logic,
+                         'formula_text': text, 'mode': 'obj', 'complaint': bad})
+    # -- the long ones
+    sizes = []
+    quick_heavy = rng.choice(sorted(LONG_SHAPES))          # quick tier: one query through the LTL tableau with F on one long structure
+    for shape, sh in LONG_SHAPES.items():
+        for rep in range(2 if R.thorough else 1):
+            n = rng.randint(1300, 2400) if R.thorough else rng.randint(1080, 1250)
+            naming = rng.choice(sorted(NAMING))
+            sizes.append((shape, n, naming))
+            K = None
+            Fs = {kind: long_F(rng, shape, n, kind) for kind in ('allfair', 'robust')}
+            light = [q for q in sh['queries'] if not q[4]]
+            heavy = [q for q in sh['queries'] if q[4]]
+            todo = []
+            for q in light:
+                if q[0] == 'CTL' or R.thorough:
+                    todo += [(q, kind) for kind in Fs if q[3] or kind == 'allfair']
+            for lg in ('LTL', 'CTLS'):
+                if not R.thorough:
+                    todo.append((rng.choice([q for q in light if q[0] == lg]), rng.choice(['allfair', 'robust'])))
+            if R.thorough:
+                todo += [(q, rng.choice(['allfair', 'robust'])) for q in heavy]
+            elif shape == quick_heavy:
+                todo.append((rng.choice([q for q in heavy if q[4] == 1]), rng.choice(['allfair', 'robust'])))
+            for (logic, text, want, robust, _), kind in todo:
+                if n_bad >= 6:
+                    break                     # (enough witnesses)
+                if not robust:
+                    kind = 'allfair'
+                mode = rng.choice(['text', 'text', 'obj', 'text+tupleF'])
+                R.evaluations += 1
+                n_q += 1
+                bad, K = long_fair_query(shape, n, naming, Fs[kind], logic, text, mode, K)
+                if bad:
+                    n_bad += 1
+                    F = Fs[kind]
+                    R.violation('C19: on the %s structure of %d states (%s names) %s.modelcheck(K, %r, F=%s) %s' %
+                                (shape, n, naming, logic, text, (str(F)[:80] + '...') if len(str(F)) > 80 else F, bad),
+                                {'stream': 'long fair', 'shape': shape, 'n_states': n, 'naming': naming, 'F': F, 'F_kind': kind, 'logic': logic,
+                                 'formula_text': text, 'mode': mode, 'complaint': bad})
+                else:
+                    R.nontriv(('long fair', shape, n, naming, logic, text, kind))
+    R.cov['long_structures_with_F'] = {'structures': ['%s n=%d %s' % x for x in sizes], 'queries': n_q,
+                                       'closed_forms_validated_against_model_at_n_6_9': len(small), 'differences': n_bad}
+
+
+def replay_long_fair(R, d):
+    bad, K = long_fair_query(d['shape'], d['n_states'], d['naming'], d['F'], d['logic'], d['formula_text'], d['mode'])
+    print('structure : %s with %d states, %s names' % (d['shape'], d['n_states'], d['naming']))
+    print('query     : %s.modelcheck(K, %r, F=%s) [%s]' % (d['logic'], d['formula_text'], str(d['F'])[:200], d['mode']))
+    print('outcome   :', bad or 'equals the closed form')
+    if bad:
+        R.violation('replayed: ' + bad, d)
+
+
+# ---------- very wide connectives on a long ring ----------
+def wide_ring_query(n, step, which, mode):
+    """ring 0 -> 1 -> ... -> n-1 -> 0, state i labelled at<i>; S = the multiples of step; -> complaint or None"""
+    import pyModelChecking.CTL as CTL, pyModelChecking.CTLS as CTLS
+    from pyModelChecking.kripke import Kripke
+    K = Kripke(R=[(i, (i + 1) % n) for i in range(n)], L={i: {'at%d' % i} for i in range(n)})
+    S = list(range(0, n, step))
+    names = ['at%d' % i for i in S]
+    inS = set(S)
+    M = CTLS if which.startswith('CTLS') else CTL
+    lg = 'CTLS' if M is CTLS else 'CTL'
+    kind = which.split(':')[1]
+    if kind == 'EX-or':
+        tree, want = ('E', ('X', ('or',) + tuple(('ap', a) for a in names))), {i for i in range(n) if (i + 1) % n in inS}
+    elif kind == 'and-not':
+        tree, want = ('and',) + tuple(('not', ('ap', a)) for a in names), set(range(n)) - inS
+    elif kind == 'AF-or':
+        tree, want = ('A', ('F', ('or',) + tuple(('ap', a) for a in names))), set(range(n))
+    elif kind == 'AG-EX-or-or':
+        w = ('or',) + tuple(('ap', a) for a in names)
+        good = {i for i in range(n) if i in inS or (i + 1) % n in inS}          # the ring is strongly connected: all or nothing
+        tree, want = ('A', ('G', ('or', w, ('E', ('X', w))))), (set(range(n)) if len(good) == n else set())
+    else:
+        # or over quantified operands: E X at_i for i in S  (operands in late positions are temporal)
+        tree, want = ('or',) + tuple(('E', ('X', ('ap', a))) for a in names), {i for i in range(n) if (i + 1) % n in inS}
+    arg = ftext(tree) if mode == 'text' else to_py_iter(tree, M)
+    r = call(lambda: M.modelcheck(K, arg))
+    if r[0] != 'ok':
+        return 'raised %s' % r[1], len(names)
+    v = r[1]
+    if type(v) is not set or not v <= set(range(n)):
+        return 'did not return a set of states of K', len(names)
+    if v != want:
+        return 'returned %d states, the closed form has %d' % (len(v), len(want)), len(names)
+    return None, len(names)
+
+
+def wide_ring(R):
+    """Or / And are variadic: connectives with 600-760 (thorough: up to 1300) operands (built from a state list) as objects and as
+    text, on a ring of a thousand states and more whose state i is labelled at<i>; the answers are known in closed form"""
+    rng = random.Random(R.seed + 1923)
+    n_bad, widths = 0, []
+    for rep in range(3 if R.thorough else 1):
+        step = rng.choice([2, 2, 3])
+        n = step * (rng.randint(1050, 1300) if R.thorough and rep else rng.randint(600, 760)) + rng.randrange(step)
+        qs = [('CTL:EX-or', 'obj'), ('CTL:EX-or', 'text'), ('CTL:and-not', rng.choice(['obj', 'text'])), ('CTL:AG-EX-or-or', rng.choice(['obj', 'text'])),
+              ('CTLS:AF-or', 'obj'), ('CTLS:EX-or', 'text'), ('CTLS:and-not', rng.choice(['obj', 'text'])), ('CTL:or-EX', 'obj'), ('CTLS:or-EX', 'text')]
+        if not R.thorough:
+            # quick tier: an or and an and, an object and a text, CTL and CTL*
+            a, b = rng.sample(['CTL', 'CTLS'], 2)
+            m1, m2 = rng.sample(['obj', 'text'], 2)
+            qs = [(a + ':' + rng.choice(['EX-or', 'AG-EX-or-or'] if a == 'CTL' else ['EX-or', 'AF-or']), m1), (b + ':and-not', m2),
+                  (rng.choice(['CTL:or-EX', 'CTLS:or-EX']), rng.choice(['obj', 'text']))]
+        for which, mode in qs:
+            R.evaluations += 1
+            bad, width = wide_ring_query(n, step, which, mode)
+            widths.append(width)
+            if bad:
+                n_bad += 1
+                R.violation('C19: %s.modelcheck on a ring of %d states with a connective of %d operands (%s, %s) %s' %
+                            (which.split(':')[0], n, width, which.split(':')[1], mode, bad),
+                            {'stream': 'wide ring', 'n_states': n, 'step': step, 'which': which, 'mode': mode, 'operands': width, 'complaint': bad})
+            else:
+                R.nontriv(('wide ring', n, step, which, mode))
+    R.cov['wide_connectives_on_long_ring'] = {'operands_min': min(widths), 'operands_max': max(widths), 'queries': len(widths), 'differences': n_bad}
+
+
+def replay_wide_ring(R, d):
+    bad, width = wide_ring_query(d['n_states'], d['step'], d['which'], d['mode'])
+    print('ring of %d states, state i labelled at<i>; %s as %s with %d operands (every %d-th state)' % (d['n_states'], d['which'], d['mode'], width, d['step']))
+    print('outcome   :', bad or 'equals the closed form')
+    if bad:
+        R.violation('replayed: ' + bad, d)
+
+
+# ---------- very wide connectives on small typed structures (through the main pipeline, against the model) ----------
+def wide_formula(rng, logic, width, atoms, place='late'):
+    """a formula of the logic around ONE or / and node with `width` operands: mostly NEUTRAL ones (atoms no state carries, w<i>, under
+    or; their negations under and), plus two literals over atoms of K and one or two temporal operands - the operands that decide the
+    answer - among the LAST 30 positions (place='late': an evaluation that walks the operands cannot stop early), among positions
+    2..30 ('early') or anywhere; <= 3 temporal operators in all"""
+    op = rng.choice(['or', 'and'])
+    absent = [('ap', 'w%d' % i) for i in range(width)]
+    ops = [(a if op == 'or' else ('not', a)) for a in absent]          # neutral operands: false under or, true under and
+    real = [('ap', rng.choice(atoms)), ('not', ('ap', rng.choice(atoms)))]
+    if logic == 'CTL':
+        temporal = [(rng.choice('AE'), (rng.choice('XFG'), ('ap', rng.choice(atoms)))), ('E', ('U', ('ap', 'q'), ('ap', 'p')))]
+    elif logic == 'LTL':
+        temporal = [('X', ('ap', rng.choice(atoms)))]
+    else:
+        temporal = [('E', ('X', ('ap', rng.choice(atoms)))), rng.choice([('A', ('F', ('G', ('ap', rng.choice(atoms))))), ('X', ('ap', 'q'))])]
+    for g in real + rng.sample(temporal, rng.randint(1, len(temporal))):
+        ops[rng.randint(width - 30, width - 1) if place == 'late' else rng.randint(2, 30) if place == 'early' else rng.randint(2, width - 1)] = g
+    w = (op,) + tuple(ops)
+    if logic == 'CTL':
+        f = rng.choice([w, ('not', w), ('E', ('X', w)), ('A', ('G', w)), ('E', ('U', ('ap', 'q'), w))])
+    elif logic == 'LTL':
+        f = ('A', rng.choice([w, ('not', w), ('X', w), ('G', w)]))
+    else:
+        f = (rng.choice('AE'), rng.choice([w, ('F', w), ('not', w), ('G', w)]))
+    return f
+
+
+# ---------- the same question asked of many short-lived structures ----------
+def history_rounds(rng, logic, n, rounds):
+    kds = [rand_kripke(rng, n) for _ in range(rounds)]
+    fs = []
+    while len(fs) < rng.choice([1, 1, 2]):
+        # of a few candidates the formula whose answer (reference semantics) varies most from structure to structure: an answer
+        # that belongs to ANOTHER structure is then most likely a wrong one
+        best = None
+        for _ in range(4):
+            f = gen_formula(rng, logic, ['p', 'q'])
+            if n_temporal(f) >= 1:
+                k = len(set(frozenset(ref_check(kd, f)) for kd in kds[:7]))
+                if best is None or k > best[0]:
+                    best = (k, f)
+        if best:
+            fs.append(best[1])
+    return {'logic': logic, 'n': n, 'formulas': fs, 'mode': rng.choice(['obj', 'obj-fresh', 'text']),
+            'naming': rng.choice(['same', 'fresh', 'fresh-objects']), 'Fkind': rng.choice(['none', 'none', 'none', 'empty', 'sets']),
+            'rounds': [{'kd': kd_json(kd), 'which': rng.randrange(2),
+                        'F': [sorted(i for i in range(n) if rng.random() < 0.6) for _ in range(rng.randint(1, 2))]} for kd in kds]}
+
+
+def run_history(h, upto=None):
+    """a caller that builds a structure, asks, DROPS the structure and builds the next one of the same size (a new version of a
+    design; the allocator hands out the same addresses again), asking the same one or two formulas all along.
+    -> [(round, observation, complaints, model command)]; nothing of a structure survives its round"""
+    logic, n = h['logic'], h['n']
+    L = lang_module(logic)
+    fs = [detuple(f) for f in h['formulas']]
+    kept_objs = [to_py_iter(f, L) for f in fs]
+    out = []
+    K = None
+    for rno, rd in enumerate(h['rounds'][:upto]):
+        kd = kd_from_json(rd['kd'])
+        if h['naming'] == 'same':
+            nm = list(range(n))
+        elif h['naming'] == 'fresh':
+            nm = ['v%d_%d' % (rno, i) for i in range(n)]
+        else:
+            nm = [Site(i) for i in range(n)]
+        K = mk_py_kripke(list(nm), [nm[i] for i in kd['S0']], [(nm[a], nm[b]) for a, b in kd['R']], {nm[i]: ls for i, ls in kd['L'].items()})
+        num = {s: i for i, s in enumerate(K._next)}
+        f = fs[rd['which'] % len(fs)]
+        arg = ftext(f) if h['mode'] == 'text' else kept_objs[rd['which'] % len(fs)] if h['mode'] == 'obj' else to_py_iter(f, L)
+        F = None if h['Fkind'] == 'none' else [] if h['Fkind'] == 'empty' else rd['F']
+        ks = ksx(K, num)
+        if F is not None:
+            try:
+                ks = ksx(K.clone(), num)
+            except KeyError:
+                pass
+            Fv = [set(nm[i] for i in P) for P in F]
+            kw = {'F': Fv}
+        else:
+            kw = {}
+        if h['mode'] == 'text' and rno % 4:
+            kw['parser'] = shared_parser(logic)      # (the default route builds a new parser per call: every 4th round only)
+        r = guarded(lambda: L.modelcheck(K, arg, **kw))
+        cmd = mcmd(logic, ks, f, None if F is None else [sorted(num[nm[i]] for i in P) for P in F])
+        bad = []
+        if r[0] != 'ok':
+            obs = list(r)
+        else:
+            v = r[1]
+            bad = contract(v, K, [])
+            obs = ['ok', sorted(num[s] for s in v)] if not bad else ['ok', 'uncanonical: ' + repr(sorted(map(repr, v)))[:200]]
+            v = None
+        out.append((rno, obs, bad, cmd))
+        r = arg = K = num = nm = kw = Fv = None           # the caller drops the structure (and a fresh formula object) before building the next
+    return out
+
+
+def judge_history(h, res, outs):
+    """-> (round, complaint) of the first failing round or None"""
+    for (rno, obs, bad, _), o in zip(res, outs):
+        e = exp_of(o)
+        if bad:
+            return rno, '; '.join(bad)
+        if obs != e and not (obs[0] == 'err' and obs[1] == 'TypeError' and e == ['err', 'TypeError']):
+            return rno, ('raised %s' % obs[1] if obs[0] == 'err' else 'returned %s' % (obs[1],)) + ', the model gives %s' % (e,)
+    return None
+
+
+def rebuilt_histories(R):
+    rng = random.Random(R.seed + 1931)
+    n_h, rounds = (60, 60) if R.thorough else (12, 28)
+    hs, allres, cmds = [], [], []
+    for i in range(n_h):
+        h = json.loads(json.dumps(history_rounds(rng, LOGICS[i % 3], rng.choice([1, 2, 2, 3, 3, 4]), rounds)))
+        res = run_history(h)
+        hs.append(h)
+        allres.append((res, len(cmds)))
+        cmds += [c for _, _, _, c in res]
+    outs = model_batch_parallel(cmds)
+    n_bad = 0
+    for h, (res, off) in zip(hs, allres):
+        R.evaluations += len(res)
+        R.count('rebuilt_naming_' + h['naming'])
+        R.count('rebuilt_mode_' + h['mode'])
+        v = judge_history(h, res, outs[off:off + len(res)])
+        if v:
+            n_bad += 1
+            rno, what = v
+            hh = dict(h)
+            hh['rounds'] = h['rounds'][:rno + 1]
+            R.violation('C19: round %d of a build-ask-drop loop over structures of %d states (%s): %s.modelcheck %s' %
+                        (rno, h['n'], h['naming'], h['logic'], what[:300]),
+                        {'stream': 'rebuilt structures', 'history': hh, 'formulas_str': [fstr(detuple(f)) for f in h['formulas']],
+                         'failing_round': rno, 'complaint': what})
+        else:
+            R.nontriv(('rebuilt', h))
+    R.cov['rebuilt_structures'] = {'histories': n_h, 'rounds_each': rounds, 'differences': n_bad}
+
+
+def replay_history(R, d):
+    h = d['history']
+    res = run_history(h)
+    outs = model_batch([c for _, _, _, c in res])
+    print('build-ask-drop loop: %s, %d states, naming=%s, formula channel=%s, F=%s, formulas=%s' %
+          (h['logic'], h['n'], h['naming'], h['mode'], h['Fkind'], [fstr(detuple(f)) for f in h['formulas']]))
+    for (rno, obs, bad, _), o in zip(res, outs):
+        print('round %-3d impl=%s model=%s %s' % (rno, obs, exp_of(o), '; '.join(bad)))
+    v = judge_history(h, res, outs)
+    if v:
+        print('complaint : round %d: %s' % v)
+        R.violation('replayed: round %d: %s' % v, d)
+
+
 def run(R):
     lo, hi = 30, 60
     R.rule = ('(typed structure, query, caller mutation): 1-5 states drawn from a value family (str incl. empty / operator-like / '
@@ -532,11 +1026,28 @@ def run(R):
               'F in {None, [], 1-3 sets of typed states} (faithful fairness model); 15%% (thorough 8%%) of exact cases as text; a fixed corpus per family x logic incl. the degenerate queries true / false / p / absent atom; deep formulas of tree '
               'height %d-%d per logic; each case = call, type/subset/identity contract, caller mutates the result (add state / add foreign / '
               'clear / discard / update), same call again vs model, caller set untouched, optionally the negated formula after clobbering the '
-              'second result; non-trivial = a state that is not an int and an answer neither empty nor all states; distinct by case'
+              'second result; non-trivial = a state that is not an int and an answer neither empty nor all states; distinct by case. '
+              'ADDED STREAMS: (a) long structures with F given - three shapes (corridor into a 2-clique, ring with self loops, two 2-cliques '
+              'joined by a corridor) x 1080-1250 (thorough 1300-2400) states x int/str/tuple/negative-int names x F of two kinds (every set '
+              'contains the recurrent core so that every path is fair | sets that only meet every recurrent clique, with queries whose answer '
+              'has a fair witness) x CTL/LTL/CTL* queries with closed-form answers, F as list of sets or tuple of frozensets, text and object; '
+              'closed forms validated against the model at 6 and 9 states; (b) the EMPTY structure (Kripke() and Kripke(S=[],...)) and '
+              'one-state structures x 3 logics x F in {None, [], [set()], [{non-state}], sets} x text/object through the full pipeline; '
+              '(c) states that are plain objects compared by identity (address-hashed and int-hashed), all logics, with and without F: every '
+              'element of a result must be one of K\'s own state objects; (d) one or/and node with 520-1300 operands (atoms absent from K, '
+              'a few atoms of K, temporal operands in late positions) under not / X / G / U / quantifiers, object and text, on 1-5 state '
+              'typed structures (model) and as E X or / and-not / A F or / A G(or | E X or) / or of E X on a ring of 1200-2600 states labelled '
+              'at<i> (closed form); (e) build-ask-drop loops: 12 (thorough 60) histories of 28 (60) structures of equal size (1-4 states, same '
+              'names / fresh names / fresh identity objects), each dropped before the next is built, asked the same one or two formulas '
+              '(chosen so that the answer varies between the structures; object kept / object rebuilt / text; F none, [] or sets), every '
+              'round against the model'
               % (lo, hi))
     rng = R.rng
     depth_probe(R)
     long_corridors(R)
+    long_fair(R)
+    wide_ring(R)
+    rebuilt_histories(R)
     cases = corpus(rng)
     n_rand, n_deep = (20000, 450) if R.thorough else (700, 36)
     for _ in range(n_rand):
@@ -545,6 +1056,7 @@ def run(R):
         logic = LOGICS[i % 3]
         cases.append(gen_case(rng, logic=logic, cls='exact', deep=rng.randint(lo, hi - 3),
                               mode='text' if i % 6 == 5 else 'obj', Fkind=rng.choice(['none', 'none', 'sets'])))
+    cases += extra_cases(random.Random(R.seed + 1937), R.thorough)
     results, cmds = [], []
     for case in cases:
         case = json.loads(json.dumps(case))
@@ -566,6 +1078,12 @@ def run(R):
         R.count('mode_' + case['mode'])
         R.count('F_' + ('None' if case['F'] is None else 'empty' if not case['F'] else 'sets'))
         R.count('mutation_' + case['mut'])
+        R.count('ctor_' + case.get('ctor', 'full'))
+        if len(case['states']) <= 1:
+            R.count('structures_with_%d_states' % len(case['states']))
+        wmax = max(len(g) - 1 for g in subformulas(f))
+        if wmax >= 100:
+            R.count('cases_with_a_connective_of_500+_operands' if wmax >= 500 else 'cases_with_a_connective_of_100+_operands')
         if obs.get('clone_order_differs'):
             R.count('fair_cases_where_clone_iteration_order_differs_from_original')
         h = height_iter(f)
@@ -600,6 +1118,13 @@ def replay(R, data):
         long_corridors(R)
         print('long corridors re-run: %d violation(s)' % (len(R.violations) - n0))
         return
+    st = data['data'].get('stream')
+    if st == 'long fair':
+        return replay_long_fair(R, data['data'])
+    if st == 'wide ring':
+        return replay_wide_ring(R, data['data'])
+    if st == 'rebuilt structures':
+        return replay_history(R, data['data'])
     case = data['data']['case']
     obs, cs, K, num = run_case(case)
     exps = [exp_of(o) for o in model_batch(cs)]
